@@ -33,12 +33,25 @@ def _mut_worker(args):
     query.populate(ds, pool)
     rec = query.Recorder(pool)
     out = []
+    calls = []
+
+    def pevs(evs):
+        import json as _json
+        return [[str(e.id), e.timestamp.isoformat(), str(e.duration.total_seconds()), _json.dumps(e.data, sort_keys=True)] for e in evs]
+
+    def on_return(name, datastore, args, ret):
+        # what query_bucket hands to the program, next to a direct windowed read over the query's instants
+        if name == "query_bucket" and args and isinstance(ret, list):
+            calls.append({"got": pevs(ret), "direct": pevs(datastore[args[0]].get(starttime=query.QSTART, endtime=query.QEND))})
+
+    rec.on_return = on_return
     try:
         pre = sdump(ds)
         for t in texts:
+            del calls[:]
             r = query.run_text(ds, rec, t)
             post = sdump(ds)
-            out.append({"op": "query", "text": t, "backend": kind, "out": r["out"], "pre": pre, "post": post})
+            out.append({"op": "query", "text": t, "backend": kind, "out": r["out"], "pre": pre, "post": post, "reads": list(calls)})
             pre = post
     finally:
         rec.close()
